@@ -165,7 +165,7 @@ fn gen_m3(ch: &mut Ch, thorough: bool) -> Option<Case> {
     for i in 0..n {
         let c = *ch.of(&alpha);
         let c = if flavour == 2 { c } else { c };
-        let mut f = FieldSpec { ty: FTy::V, dom: 3, combo: c, form: [KeyForm::Inherent, KeyForm::Twice, KeyForm::Nested, KeyForm::Method][i % 4], identity: None };
+        let mut f = FieldSpec { ty: FTy::V, dom: 3, combo: c, form: if n == 2 { [KeyForm::Fragment, KeyForm::FragmentNested][i] } else { [KeyForm::Inherent, KeyForm::Twice, KeyForm::Nested, KeyForm::Method][i % 4] }, identity: None };
         if c.is_plain() || (!c.get(Ord).custom()) {
             // fields without key/by may have any type of the pool
             match flavour {
@@ -176,6 +176,9 @@ fn gen_m3(ch: &mut Ch, thorough: bool) -> Option<Case> {
                 }
                 _ => {}
             }
+        } else if flavour == 1 {
+            // key / by on a field whose type is a parameter of the item (declared `T: dxrt::Kt`)
+            f.ty = FTy::Tk;
         }
         fields.push(f);
     }
